@@ -313,12 +313,15 @@ def run_dispose(res, ast):
         rng = strip_paren(lp["expr"])
         ivar = lp["pat"].get("name")
         # range must be first..old_size with old_size = self.size saved before size is reset
-        okr = rng["t"] == "Range" and not rng["closed"] and int_lit(rng["start"]) == first and idx_name(rng["end"]) == "old_size"
-        res.check(okr, "SV-DISPOSE", key0 + "|range", w, f"{name}: loop range is `{ast.src1(SV, rng)}`, expected {first}..old_size")
+        saved = [n["pat"]["name"] for n in walk_t(body, "Local") if n["pat"]["t"] == "PIdent" and n["init"] is not None
+                 and size_of(n["init"]) == "self" and n["sp"][0] < lp["sp"][0]]
+        sname = saved[0] if len(saved) == 1 else "old_size"
+        okr = rng["t"] == "Range" and not rng["closed"] and int_lit(rng["start"]) == first and idx_name(rng["end"]) == sname
+        res.check(okr, "SV-DISPOSE", key0 + "|range", w, f"{name}: loop range is `{ast.src1(SV, rng)}`, expected {first}..<the length saved before the loop>")
         # old_size = self.size before `self.size = first`
         seq = []
         for n in walk(body):
-            if n.get("t") == "Local" and n["pat"].get("name") == "old_size" and n["init"] is not None and size_of(n["init"]) == "self":
+            if n.get("t") == "Local" and n["pat"].get("name") == sname and n["init"] is not None and size_of(n["init"]) == "self":
                 seq.append(("save", n["sp"][0]))
             if n.get("t") == "Assign" and size_of(n["left"]) == "self":
                 seq.append(("reset", n["sp"][0], int_lit(n["right"])))
@@ -326,7 +329,7 @@ def run_dispose(res, ast):
         resets = [s for s in seq if s[0] == "reset"]
         okp = len(saves) == 1 and len(resets) == 1 and saves[0][1] < resets[0][1] < lp["sp"][0] and resets[0][2] == first
         res.check(okp, "SV-DISPOSE", key0 + "|prologue", w,
-                  f"{name}: expected `let old_size = self.size` then `self.size = {first}` before the loop; found {seq}")
+                  f"{name}: expected the old length to be saved (`let n = self.size`) and then `self.size = {first}` before the loop; found {seq}")
         try:
             paths = block_paths(lp["body"])
         except TooComplex as t:
@@ -338,6 +341,8 @@ def run_dispose(res, ast):
             res.evaluations += 1
             reads = [a for a in acts if a[0] == "assume_init_read" and a[1] == ivar]
             drops = [a for a in acts if a[0] == "assume_init_drop" and a[1] == ivar]
+            jnames = [n_["pat"]["name"] for k_, n_ in ev if k_ == "let" and n_["pat"]["t"] == "PIdent" and n_["init"] is not None and size_of(n_["init"]) == "self"]
+            jn = jnames[0] if jnames else "j"
             writes = [a for a in acts if a[0] == "write"]
             incs = [a for a in acts if a[0] == "size+=" and a[1] == 1]
             other = [a for a in acts if a[0] in ("size-=", "size=") or (a[0] == "size+=" and a[1] != 1)
@@ -351,9 +356,9 @@ def run_dispose(res, ast):
                 txt = ast.src1(SV, c[1]).replace(" ", "")
                 rel = None
                 for op in ("!=", "==", ">=", "<=", ">", "<"):
-                    if txt == f"{ivar}{op}j":
+                    if txt == f"{ivar}{op}{jn}":
                         rel = op
-                    elif txt == f"j{op}{ivar}":
+                    elif txt == f"{jn}{op}{ivar}":
                         rel = {"!=": "!=", "==": "==", ">=": "<=", "<=": ">=", ">": "<", "<": ">"}[op]
                 if rel is None:
                     continue
@@ -368,7 +373,7 @@ def run_dispose(res, ast):
             if other:
                 verdict = f"unexpected action on another slot or on size: {[a[0] for a in other]}"
             elif len(incs) == 1 and not drops:
-                if reads and len(reads) == 1 and len(writes) == 1 and writes[0][1] == "j":
+                if reads and len(reads) == 1 and len(writes) == 1 and writes[0][1] == jn:
                     # a self-move (i == j) through read -> write is harmless, so i != j need not be established
                     state = "kept (moved i -> j)"
                 elif not reads and not writes and (i_eq_j or not i_ne_j):
